@@ -512,3 +512,88 @@ func foldCmp(op string, w int, x, y uint64) bool {
 	}
 	panic("foldCmp: " + op)
 }
+
+// ---- truth tables for terms over a single 8-bit variable ----
+
+type ttab struct {
+	b [4]uint64 // Bool terms: bit x set iff the term is true at v1 = x
+	v []uint64  // bit-vector terms: value at v1 = x
+}
+
+var tabCache = map[int]*ttab{}
+
+// table returns the value table of t over its single 8-bit variable (t.nv == 1, t.v1.w == 8).
+func (t *Term) table() *ttab {
+	if tt, ok := tabCache[t.id]; ok {
+		return tt
+	}
+	tt := &ttab{}
+	val := func(a *Term, x int) uint64 {
+		if a.isC {
+			return a.c
+		}
+		at := a.table()
+		if a.w == 0 {
+			return (at.b[x>>6] >> uint(x&63)) & 1
+		}
+		return at.v[x]
+	}
+	if t.w != 0 {
+		tt.v = make([]uint64, 256)
+	}
+	for x := 0; x < 256; x++ {
+		var r uint64
+		switch t.op {
+		case "var":
+			r = uint64(x)
+		case "not":
+			r = 1 - val(t.args[0], x)
+		case "and":
+			r = val(t.args[0], x) & val(t.args[1], x)
+		case "or":
+			r = val(t.args[0], x) | val(t.args[1], x)
+		case "ite":
+			if val(t.args[0], x) == 1 {
+				r = val(t.args[1], x)
+			} else {
+				r = val(t.args[2], x)
+			}
+		case "=":
+			if val(t.args[0], x) == val(t.args[1], x) {
+				r = 1
+			}
+		case "extract":
+			r = (val(t.args[0], x) >> uint(t.p2)) & mask(t.w)
+		case "zext":
+			r = val(t.args[0], x)
+		case "sext":
+			r = uint64(sext(val(t.args[0], x), t.args[0].w)) & mask(t.w)
+		case "bvult", "bvule", "bvslt", "bvsle":
+			if foldCmp(t.op, t.args[0].w, val(t.args[0], x), val(t.args[1], x)) {
+				r = 1
+			}
+		case "bvsdiv", "bvsrem":
+			a, b := val(t.args[0], x), val(t.args[1], x)
+			if b == 0 {
+				if t.op == "bvsrem" {
+					r = a
+				} else if sext(a, t.w) < 0 {
+					r = 1
+				} else {
+					r = mask(t.w)
+				}
+			} else {
+				r = foldBin(t.op, t.w, a, b)
+			}
+		default:
+			r = foldBin(t.op, t.w, val(t.args[0], x), val(t.args[1], x))
+		}
+		if t.w == 0 {
+			tt.b[x>>6] |= r << uint(x&63)
+		} else {
+			tt.v[x] = r
+		}
+	}
+	tabCache[t.id] = tt
+	return tt
+}
